@@ -105,6 +105,7 @@ fn main() {
         "typegate" => mailbox::typegate(&args),
         "dequeue" => mailbox::dequeue(&args),
         "request" => mailbox::request(&args),
+        "marker_window" => mailbox::marker_window(&args),
         "auth_fsm" => auth::fsm(&args),
         "auth_session" => auth::session(&args),
         "remote_proxy" => auth::proxy(&args),
